@@ -101,6 +101,16 @@ def observe(T, env):
     s = Sentinel()
     pv = probe_value(T, s)
     outs = []
+    if T["k"] == "union" and any(m["k"] == "ext" and m["n"] in PASS for m in T["xs"]):
+        # a union with a pass-through member takes everything: what the other members reject -- with whatever exception --
+        # comes back as it is
+        for x in ("abc", "1/0", "[a-", "1e", 1.5, None, object()):
+            for name, fn in (("unmarshal", U), ("marshal", M)):
+                try:
+                    with_deadline(3, fn, x)
+                except Exception as e:
+                    ev["passthrough"] = False
+                    detail = detail or f"{name}({x!r}) raised {e!r} although a member of the union accepts anything"[:200]
     if pv is not None:
         x, find = pv
         for name, fn in (("unmarshal", U), ("marshal", M)):
@@ -148,6 +158,17 @@ def observe(T, env):
         return "|".join(outs)
     # repeatable: same behaviour (a) memoised, (b) rebuilt from cold caches in the same order,
     # (c) rebuilt from cold caches in the opposite order (codec, marshaller, unmarshaller)
+    # the graph of the annotation can be walked again and again (the uncached entry point)
+    try:
+        from typelib import graph as tgraph
+        g1 = [repr(n.type) for n in tgraph.itertypes(ann)]
+        g2 = [repr(n.type) for n in tgraph.itertypes(ann)]
+        if g1 != g2:
+            ev["repeatable"] = False
+            detail = detail or "graph.itertypes gives another node sequence the second time"
+    except Exception as e:
+        ev["repeatable"] = False
+        detail = detail or f"graph.itertypes raised the second time: {e!r}"[:160]
     try:
         b0 = behaviour(U, M, C)
         b1 = behaviour(typelib.unmarshaller(ann), typelib.marshaller(ann), typelib.codec(ann))
